@@ -1,7 +1,8 @@
 INIT Init
 NEXT Next
 CONSTANTS
-  Blocks = {"data", "tags", "meta", "seq", "seq3"}
+  Blocks = {"dataq", "tags", "metaq", "seq", "seq3"}
+  Script <- NoScript
   T0 = 2000000043
   FutureSlots = 3
   TagShift = 100
